@@ -34,7 +34,7 @@ class Violation(Exception):
 
 class SubCheck:
     def __init__(self, name, strategy, judge, quick=1600, thorough=16000, kind="hypothesis",
-                 enumerate_fn=None, max_shrink_s=120):
+                 enumerate_fn=None, max_shrink_s=120, custom_fn=None):
         self.name = name
         self.strategy = strategy
         self.judge = judge
@@ -42,6 +42,7 @@ class SubCheck:
         self.thorough = thorough
         self.kind = kind  # hypothesis | enumerate | stateful
         self.enumerate_fn = enumerate_fn
+        self.custom_fn = custom_fn
 
 
 class Recorder:
@@ -202,8 +203,16 @@ def _run_hypothesis(sc, rec, n_examples, hseed):
         pass
     except HarnessError:
         raise
-    except hypothesis.errors.Flaky as e:  # a judge that is not deterministic is a harness bug
-        raise HarnessError("flaky judge in %s: %s" % (sc.name, e))
+    except hypothesis.errors.HypothesisException as e:
+        # The judges are deterministic functions of the case (no RNG, clock or shared
+        # state of their own).  If an example that violated the property does not replay
+        # identically, the library's result depends on evaluation history; the violation
+        # that was observed against the real code is reported as such.
+        if state["fail"] is not None:
+            case, v = state["fail"]
+            v.msg += " [not reproducible on immediate re-evaluation: %s]" % type(e).__name__
+            return state["fail"]
+        raise HarnessError("hypothesis error in %s: %s" % (sc.name, e))
     return state["fail"]
 
 
@@ -251,7 +260,12 @@ def worker(args):
             if sc.kind == "enumerate":
                 fail = _run_enumerate(sc, rec, shard, nshards, tier)
             elif sc.kind == "custom":
-                fail = sc.judge(rec, shard, nshards, tier, seed)
+                budget = sc.quick if tier == "quick" else sc.thorough
+                n_examples = max(1, int(math.ceil(budget / float(nshards))))
+                hseed = (seed * 1000003 + shard * 7919 + si * 104729) % (2 ** 62)
+                fail = sc.custom_fn(sc, rec, n_examples, hseed, tier, known)
+                if fail is not None and not isinstance(fail[1], Violation):
+                    fail = (fail[0], Violation(str(fail[1]), "%s/generic" % sc.name))
             else:
                 budget = sc.quick if tier == "quick" else sc.thorough
                 n_examples = max(1, int(math.ceil(budget / float(nshards))))
